@@ -6,24 +6,47 @@
 
 package headers
 
-//@ pure func last(b *Branch) *HeaderData = b.headers[len(b.headers)-1]
+// ---------------------------------------------------------------------------------------------------
+// Shared specification vocabulary. Pure functions take Branch *values*; write last(*b) for a *Branch.
+
+//@ ufunc difficultyOf(bits uint32) int
+//@ ufunc workOfDiff(d int) int
+//@ pure func workOf(bits uint32) int = workOfDiff(difficultyOf(bits))
+
+// validBits: the domain on which bitcoin.ConvertToDifficulty does not index out of range (the effective byte
+// length - exponent, minus one modulo 256 when the top mantissa byte is zero - must not be 1).
+//@ pure func validBits(bits uint32) bool = ite((bits / 65536) % 256 == 0, (bits / 16777216 - 1) % 256, bits / 16777216) != 1
+
+//@ pure func last(b Branch) *HeaderData = b.headers[len(b.headers)-1]
 //@ pure func W(d *HeaderData) int = bigv(d.AccumulatedWork)
+//@ pure func lowest(b Branch) int = b.parentHeight + b.offset
+//@ pure func tipH(b Branch) int = b.parentHeight + b.offset + len(b.headers) - 1
+//@ pure func slotOK(d *HeaderData) bool = d != nil && d.Header != nil && d.AccumulatedWork != nil
 
 // tipOK: the branch has a last header whose accumulated work exists.
-//@ pure func tipOK(b *Branch) bool = b != nil && len(b.headers) > 0 && last(b) != nil && last(b).AccumulatedWork != nil
+//@ pure func tipOK(b *Branch) bool = b != nil && len(b.headers) > 0 && last(*b) != nil && last(*b).AccumulatedWork != nil
+
+// inBranch: the slot of this branch that holds height h (nil above the tip or below the pruned part).
+//@ pure func inBranch(b Branch, h int) *HeaderData = ite(h - b.parentHeight - b.offset >= len(b.headers) || h - b.parentHeight - b.offset < 0, nil, b.headers[h - b.parentHeight - b.offset])
+
+// anc: the definition of "the header at height h in the ancestry of branch b" (walks the parent links).
+//@ hfunc anc(b *Branch, h int) *HeaderData reads Branch.parent, Branch.parentHeight, Branch.offset, Branch.headers, elems(*HeaderData) = ite(b == nil, nil, ite(h > b.parentHeight, inBranch(*b, h), anc(b.parent, h)))
+
+// findH: the height recorded for a hash along the parent chain of b (-1 if none) - the definition of "known on b".
+//@ hfunc findH(b *Branch, k bitcoin.Hash32) int reads Branch.parent, Branch.heightsMap, maps(map[bitcoin.Hash32]int) = ite(b == nil, -1, ite(has(b.heightsMap, k), b.heightsMap[k], findH(b.parent, k)))
 
 //@ func (Branches).Longest
 //@   requires forall(i, 0, len(bs), tipOK(bs[i]))
 //@   ensures [C01.member] len(bs) > 0 ==> exists(k, 0, len(bs), result == bs[k])
-//@   ensures [C01.maximal] forall(i, 0, len(bs), W(last(result)) >= W(last(bs[i])))
+//@   ensures [C01.maximal] len(bs) > 0 ==> forall(i, 0, len(bs), W(last(*result)) >= W(last(*bs[i])))
 //@   ensures [C01] len(bs) == 0 ==> result == nil
 //@   modifies nothing
 //@   loop 1
 //@     invariant -1 <= rangeindex && rangeindex < len(bs) || (len(bs) == 0 && rangeindex == -1)
 //@     invariant (rangeindex == -1) == (result == nil)
 //@     invariant result != nil ==> exists(k, 0, rangeindex+1, result == bs[k])
-//@     invariant result != nil ==> resultLast == last(result)
-//@     invariant forall(i, 0, rangeindex+1, W(resultLast) >= W(last(bs[i])))
+//@     invariant result != nil ==> resultLast == last(*result)
+//@     invariant forall(i, 0, rangeindex+1, W(resultLast) >= W(last(*bs[i])))
 
 // removeDuplicateHashes: drops every element equal to its predecessor (C19: no hash twice in a locator whose
 // equal hashes are adjacent).
@@ -40,3 +63,64 @@ package headers
 //@     invariant rangeindex >= 0 ==> previousHash == hashes[rangeindex] && result[len(result)-1] == hashes[rangeindex]
 //@     invariant rangeindex >= 0 ==> result[0] == hashes[0]
 //@     invariant forall(i, 1, len(result), result[i] != result[i-1])
+
+// ---------------------------------------------------------------------------------------------------
+// bitcoin.ConvertToDifficulty (dependency source, analysed like repository code for panics).
+//@ func github.com/tokenized/pkg/bitcoin.ConvertToDifficulty
+//@   requires [C02.bits-domain,C15.bits-domain] validBits(bits)
+//@   ensures result != nil && fresh(result)
+//@   assumes bigv(result) == difficultyOf(bits)
+//@   safety [C02,C15]
+//@   modifies nothing
+
+//@ func (Branch).IsLonger
+//@   requires tipOK(right) && len(b.headers) > 0 && last(b) != nil && last(b).AccumulatedWork != nil
+//@   ensures [C01] result == (W(last(b)) > W(last(*right)))
+//@   modifies nothing
+
+//@ func NewBranch
+//@   requires header != nil
+//@   requires [C02.bits-domain,C15.bits-domain] validBits(header.Bits)
+//@   requires parent != nil && anc(parent, parentHeight) != nil ==> anc(parent, parentHeight).AccumulatedWork != nil
+//@   ensures [C01] parent != nil && old(anc(parent, parentHeight)) == nil ==> result0 == nil && result1 == ErrHeaderDataNotFound
+//@   ensures [C01] parent != nil && old(anc(parent, parentHeight)) != nil && old(anc(parent, parentHeight).Hash) != header.PrevBlock ==> result0 == nil && result1 == ErrWrongPreviousHash
+//@   ensures [C01] (result0 == nil) == (result1 != nil)
+//@   ensures [C01] result1 == nil ==> parent == nil || (old(anc(parent, parentHeight)) != nil && old(anc(parent, parentHeight).Hash) == header.PrevBlock)
+//@   ensures [C01,C09] result1 == nil ==> fresh(result0) && result0.parent == parent && result0.parentHeight == parentHeight && result0.offset == 1 && result0.firstHeader == header && len(result0.headers) == 1 && fresh(result0.headers) && fresh(result0.heightsMap) && result0.heightsMap != nil
+//@   ensures [C01,C09] result1 == nil ==> fresh(last(*result0)) && last(*result0).Header == header && last(*result0).Hash == hashOf(header) && last(*result0).AccumulatedWork != nil && fresh(last(*result0).AccumulatedWork)
+//@   ensures [C01.work] result1 == nil ==> W(last(*result0)) == ite(parent != nil, old(W(anc(parent, parentHeight))), 0) + workOf(header.Bits)
+//@   ensures [C09.map] result1 == nil ==> has(result0.heightsMap, hashOf(header)) && result0.heightsMap[hashOf(header)] == parentHeight + 1 && len(result0.heightsMap) == 1
+//@   ensures [C09.map] result1 == nil ==> forallv(k, bitcoin.Hash32, has(result0.heightsMap, k) ==> k == hashOf(header))
+//@   modifies nothing
+
+//@ func (*Branch).Add
+//@   requires b != nil && header != nil && len(b.headers) >= 1 && last(*b) != nil && last(*b).AccumulatedWork != nil && b.heightsMap != nil
+//@   requires [C02.bits-domain,C15.bits-domain] validBits(header.Bits)
+//@   ensures [C01] result == (old(last(*b).Hash) == header.PrevBlock)
+//@   ensures [C01,C08] !result ==> b.headers == old(b.headers) && forall(o, 0, len(b.headers), b.headers[o] == old(b.headers[o])) && forallv(k, bitcoin.Hash32, has(b.heightsMap, k) == old(has(b.heightsMap, k)) && b.heightsMap[k] == old(b.heightsMap[k]))
+//@   ensures [C01] result ==> len(b.headers) == old(len(b.headers)) + 1 && off(b.headers) == ite(arr(b.headers) == old(arr(b.headers)), old(off(b.headers)), 0) && (arr(b.headers) == old(arr(b.headers)) || fresh(b.headers))
+//@   ensures [C01,C09] result ==> forall(o, 0, old(len(b.headers)), b.headers[o] == old(b.headers[o]))
+//@   ensures [C01,C09] result ==> fresh(last(*b)) && last(*b).Header == header && last(*b).Hash == hashOf(header) && last(*b).AccumulatedWork != nil && fresh(last(*b).AccumulatedWork)
+//@   ensures [C01.work] result ==> W(last(*b)) == old(W(last(*b))) + workOf(header.Bits)
+//@   ensures [C09.map] result ==> has(b.heightsMap, hashOf(header)) && b.heightsMap[hashOf(header)] == tipH(*b)
+//@   ensures [C09.map] result ==> forallv(k, bitcoin.Hash32, k != hashOf(header) ==> has(b.heightsMap, k) == old(has(b.heightsMap, k)) && b.heightsMap[k] == old(b.heightsMap[k]))
+//@   modifies b.headers, elems(b.headers), mapof(b.heightsMap)
+
+//@ func (Branch).AtHeight
+//@   ensures [C01.ancestry,C09.ancestry] height > b.parentHeight ==> result == inBranch(b, height)
+//@   ensures [C01.ancestry,C09.ancestry] height <= b.parentHeight ==> result == anc(b.parent, height)
+//@   modifies nothing
+
+//@ func (Branch).Find
+//@   ensures [C09.find] has(b.heightsMap, hash) ==> result == b.heightsMap[hash]
+//@   ensures [C09.find] !has(b.heightsMap, hash) ==> result == findH(b.parent, hash)
+//@   modifies nothing
+
+//@ func (Branches).Find
+//@   requires forall(i, 0, len(bs), bs[i] != nil)
+//@   ensures [C09.find] result0 == nil ==> result1 == -1 && forall(i, 0, len(bs), findH(bs[i], hash) == -1)
+//@   ensures [C09.find] result0 != nil ==> result1 != -1 && exists(k, 0, len(bs), result0 == bs[k] && result1 == findH(bs[k], hash) && forall(i, 0, k, findH(bs[i], hash) == -1))
+//@   modifies nothing
+//@   loop 1
+//@     invariant (-1 <= rangeindex && rangeindex < len(bs)) || (len(bs) == 0 && rangeindex == -1)
+//@     invariant forall(i, 0, rangeindex+1, findH(bs[i], hash) == -1)
